@@ -7,6 +7,7 @@
 #pragma once
 
 #include <pika/assert.hpp>
+#include <pika/config/verif_hooks.hpp>
 #include <pika/concurrency/cache_line_data.hpp>
 
 #include <atomic>
@@ -127,6 +128,7 @@ namespace pika::concurrency::detail {
 
                 index = expected_range.first;
                 desired_range = expected_range.increment_first();
+                PIKA_VERIF_POINT(::pika::verif::ciq_pop_left, this);
             } while (!current_range.data_.compare_exchange_weak(expected_range, desired_range));
 
             return std::make_optional<>(index);
@@ -148,6 +150,7 @@ namespace pika::concurrency::detail {
 
                 desired_range = expected_range.decrement_last();
                 index = desired_range.last;
+                PIKA_VERIF_POINT(::pika::verif::ciq_pop_right, this);
             } while (!current_range.data_.compare_exchange_weak(expected_range, desired_range));
 
             return std::make_optional(index);
